@@ -513,6 +513,7 @@ func newImpl(th *core.Thread, root int, activeOb bool) (*impl, *model) {
 }
 
 type caseT struct {
+	Iso      []int    `json:"copy_isolation,omitempty"` // n, i, j, order, setOn (see copyIsolation)
 	Root     int      `json:"root"`
 	ActiveOb bool     `json:"active_observer"`
 	Path     []int    `json:"path"`
@@ -805,8 +806,93 @@ var (
 	nPend   int
 )
 
+// ---------------------------------------------------------------- copy isolation family
+
+// Seven rules z0..z6 that all read field a directly (zk = a $ k), so that a's list
+// of dependents grows one by one. n of them are evaluated, the record is copied,
+// the copy then evaluates rule i and the original rule j (both orders), a is
+// changed on one of the two records, and every rule is read on both records:
+// each must give <that record's a> $ k. The copy and the original must not share
+// any dependency bookkeeping, whatever the length / spare capacity of the lists
+// at the time of the copy.
+const nIso = 7
+
+var isoSet core.Value
+var isoOnce sync.Once
+
+func isoCase(n, i, j, order, setOn int) string {
+	isoOnce.Do(func() {
+		for k := 0; k < nIso; k++ {
+			core.Global.TestDef(fmt.Sprintf("Rule_z%d", k), compile.Constant(fmt.Sprintf(`function () { return .a $ "%d" }`, k)))
+		}
+		isoSet = compile.Constant(`function (r) { r.a = "1" }`)
+	})
+	th := &core.Thread{}
+	z := func(k int) core.Value { return core.SuStr(fmt.Sprintf("z%d", k)) }
+	msg := ""
+	if e := lib.Try(func() {
+		r := core.NewSuRecord()
+		r.Put(th, core.SuStr("a"), core.SuStr("0"))
+		for k := 0; k < n; k++ {
+			r.Get(th, z(k))
+		}
+		cp := r.Copy().(*core.SuRecord)
+		if order == 0 {
+			cp.Get(th, z(i))
+			r.Get(th, z(j))
+		} else {
+			r.Get(th, z(j))
+			cp.Get(th, z(i))
+		}
+		recs := []*core.SuRecord{r, cp}
+		th.Call(isoSet, recs[setOn])
+		for w, x := range recs {
+			a := "0"
+			if w == setOn {
+				a = "1"
+			}
+			for k := 0; k < nIso; k++ {
+				if got, want := valStr(x.Get(th, z(k))), a+fmt.Sprint(k); got != want {
+					msg = fmt.Sprintf("copy isolation: a = \"0\", rules z0..z%d read, Copy, copy reads z%d / original reads z%d (order %d), a = \"1\" on %s: %s.z%d = %q but its a is %q (rule zk = a $ k)",
+						n-1, i, j, order, []string{"the original", "the copy"}[setOn], []string{"original", "copy"}[w], k, got, a)
+					return
+				}
+			}
+		}
+	}); e != nil {
+		return "copy isolation case panicked: " + lib.PanicText(e)
+	}
+	return msg
+}
+
+func copyIsolation(c *lib.Ctx) {
+	cases := 0
+	for n := 0; n < nIso-1; n++ {
+		for i := n; i < nIso; i++ {
+			for j := n; j < nIso; j++ {
+				if i == j {
+					continue
+				}
+				for order := 0; order < 2; order++ {
+					for setOn := 0; setOn < 2; setOn++ {
+						cases++
+						c.Eval(1)
+						c.Transition(5)
+						c.TraceValidated(5)
+						if msg := isoCase(n, i, j, order, setOn); msg != "" {
+							c.Fail("", caseT{Iso: []int{n, i, j, order, setOn}}, "%s", msg)
+						}
+					}
+				}
+			}
+		}
+	}
+	c.Set("copy_isolation_cases", cases)
+}
+
 func run(c *lib.Ctx) {
 	setup()
+	copyIsolation(c)
 	debug.SetGCPercent(200) // many small short-lived objects, small live heap
 	// depth per root: {new, from row} x {passive, active observer}
 	depths := lib.Pick(c, []int{5, 4, 5, 4}, []int{7, 6, 6, 6})
@@ -905,6 +991,12 @@ func replay(c *lib.Ctx, raw json.RawMessage) {
 	var cs caseT
 	if err := json.Unmarshal(raw, &cs); err != nil {
 		lib.Infra("bad case: %v", err)
+	}
+	if len(cs.Iso) == 5 {
+		if msg := isoCase(cs.Iso[0], cs.Iso[1], cs.Iso[2], cs.Iso[3], cs.Iso[4]); msg != "" {
+			c.Fail("", cs, "%s", msg)
+		}
+		return
 	}
 	for po := range probeOrders {
 		if _, f := runPath(cs.Root, cs.ActiveOb, cs.Path, po); f != nil {
